@@ -2,10 +2,10 @@
    directive files are used (ExtrOcamlBasic, ExtrOcamlNativeString, which pulls in
    ExtrOcamlChar); nat, N, Z, positive stay Coq datatypes. Run coqc in the target directory. *)
 From Coq Require Extraction ExtrOcamlBasic ExtrOcamlNativeString.
-From Model Require Import Stream Base64 Cli KeyFile Atlas.
+From Model Require Import Stream Base64 Cli KeyFile Atlas Job.
 From Gen Require Import Tables Consts.
 Extraction Language OCaml.
 Extraction "model.ml"
   redact_line run_io stream hash_name is_email parse_plan_summary redact_plan_summary
   sha256_hex sha8_hex b64_encode b64_decode current current_consts RedactedString
-  parse_line print redact_tree decide effects decide_raw effects_raw run_key read_key atlas_run window.
+  parse_line print redact_tree decide effects decide_raw effects_raw run_key read_key atlas_run window job.
